@@ -1,6 +1,6 @@
 (* Selector/Proofs.v -- lemmas and theorems about Selector.Model for ALL
    package layouts, FMS states, selections and call sequences. *)
-From Coq Require Import String List ZArith Bool Arith Lia Permutation.
+From Coq Require Import String Ascii List ZArith Bool Arith Lia Permutation.
 From RV Require Import Selector.Model Selector.Spec.
 Import ListNotations.
 Open Scope string_scope.
@@ -1431,3 +1431,408 @@ Theorem ill_formed_start_start :
     map ev_kind (trace r [Start (None, None) 0; Start (Some "b", None) 5; Disable]) =
       [("enable", "A"); ("enable", "B"); ("disable", "B")].
 Proof. eexists. split; [vm_compute; reflexivity|]. split; reflexivity. Qed.
+
+(* ================================================================== *)
+(* 12. The import of the package itself                                *)
+
+Lemma names_the_package_iff : forall pkgname ename,
+  names_the_package pkgname ename = true <->
+  ename = Some pkgname \/ ename = Some (top_component pkgname).
+Proof.
+  intros pkgname [n|]; simpl.
+  - rewrite orb_true_iff, !String.eqb_eq. split; intros [H|H]; (left + right); congruence.
+  - split; [discriminate|]. intros [H|H]; discriminate.
+Qed.
+
+Lemma names_the_package_false : forall pkgname ename,
+  ename <> Some pkgname -> ename <> Some (top_component pkgname) ->
+  names_the_package pkgname ename = false.
+Proof.
+  intros pkgname ename H1 H2. destruct (names_the_package pkgname ename) eqn:E; [|reflexivity].
+  apply names_the_package_iff in E. tauto.
+Qed.
+
+Lemma missing_offers_nothing : forall fms, exists r, discover fms PkgMissing = Built r /\ offers_nothing r.
+Proof. intros fms. eexists. split; [vm_compute; reflexivity|]. vm_compute. auto. Qed.
+
+(* the ImportError branch, without FMS: raised unless e.name is the package
+   or its top-level package; then only a warning (FMS or not) *)
+Theorem import_error_policy : forall pkgname ename,
+  (ename <> Some pkgname -> ename <> Some (top_component pkgname) ->
+     init false pkgname (ImportRaisesImportError ename) = Raised ErrPackage []) /\
+  (ename = Some pkgname \/ ename = Some (top_component pkgname) ->
+     forall fms, exists r, init fms pkgname (ImportRaisesImportError ename) = Built r /\ offers_nothing r).
+Proof.
+  intros pkgname ename. unfold init, import_outcome. split.
+  - intros H1 H2. now rewrite names_the_package_false.
+  - intros H fms. apply names_the_package_iff in H. rewrite H. apply missing_offers_nothing.
+Qed.
+
+Theorem import_other_exception_policy : forall pkgname,
+  init false pkgname ImportRaisesOther = Raised ErrPackage [].
+Proof. reflexivity. Qed.
+
+Theorem init_fms_never_raises : forall pkgname i, exists r, init true pkgname i = Built r.
+Proof. intros. apply fms_never_raises. Qed.
+
+(* a module that lives under the package's own top-level name, but is
+   neither the package nor that top-level package, cannot be found: this is a
+   failing import of the package, not a missing package *)
+Theorem missing_module_in_namespace_raises : forall pkgname n,
+  top_component n = top_component pkgname -> n <> pkgname -> n <> top_component pkgname ->
+  init false pkgname (ImportRaisesImportError (Some n)) = Raised ErrPackage [].
+Proof.
+  intros pkgname n _ H1 H2. apply import_error_policy; congruence.
+Qed.
+
+Lemma length_append : forall a b, String.length (a ++ b)%string = String.length a + String.length b.
+Proof. induction a as [|c a IH]; intros b; simpl; [reflexivity|]. now rewrite IH. Qed.
+
+Lemma top_component_length : forall s, String.length (top_component s) <= String.length s.
+Proof.
+  induction s as [|c s IH]; simpl; [lia|]. destruct (Ascii.eqb c "."); simpl; lia.
+Qed.
+
+Lemma top_component_dotted : forall top rest,
+  top_component top = top -> top_component (top ++ "." ++ rest)%string = top.
+Proof.
+  induction top as [|c top IH]; intros rest H; simpl in *; [reflexivity|].
+  destruct (Ascii.eqb c "."); [discriminate|]. inversion H as [H1]. rewrite H1. now rewrite IH.
+Qed.
+
+Lemma append_inj_l : forall a b c : string, (a ++ b = a ++ c)%string -> b = c.
+Proof. induction a as [|x a IH]; intros b c H; simpl in H; [assumption|]. inversion H. now apply IH. Qed.
+
+(* the package's __init__ needs one of its own sub-modules that does not exist
+   ("from .helper import X", "import pkg.helper") *)
+Theorem missing_submodule_raises : forall pkgname sub,
+  init false pkgname (ImportRaisesImportError (Some (pkgname ++ "." ++ sub)%string)) = Raised ErrPackage [].
+Proof.
+  intros pkgname sub. apply import_error_policy; intros H; inversion H as [H1];
+    apply (f_equal String.length) in H1; rewrite length_append in H1; simpl in H1.
+  - lia.
+  - pose proof (top_component_length pkgname). lia.
+Qed.
+
+(* ... or a module of its parent package that does not exist
+   ("import robot.helpers" in robot/autonomous/__init__.py) *)
+Theorem missing_sibling_raises : forall top rest sub,
+  top_component top = top -> sub <> rest ->
+  init false (top ++ "." ++ rest)%string (ImportRaisesImportError (Some (top ++ "." ++ sub)%string)) = Raised ErrPackage [].
+Proof.
+  intros top rest sub Ht Hs. apply import_error_policy.
+  - intros H. injection H as H1. apply append_inj_l in H1. inversion H1. congruence.
+  - rewrite top_component_dotted by assumption. intros H. injection H as H1.
+    apply (f_equal String.length) in H1. rewrite length_append in H1. simpl in H1. lia.
+Qed.
+
+(* both have the first dotted component of the package name *)
+Lemma top_component_idem_dotted : forall top x,
+  top_component top = top -> top_component (top ++ "." ++ x)%string = top.
+Proof. intros. now apply top_component_dotted. Qed.
+
+Lemma package_fault_import_outcome : forall pkgname i,
+  package_fault (import_outcome pkgname i) <-> package_import_fault pkgname i.
+Proof.
+  intros pkgname i. unfold package_fault, package_import_fault, import_outcome. destruct i as [ename| |ms].
+  - destruct (names_the_package pkgname ename) eqn:E.
+    + split; [discriminate|]. intros [H|[e [H [H1 H2]]]]; [discriminate|]. inversion H; subst e.
+      apply names_the_package_iff in E. tauto.
+    + split; [|reflexivity]. intros _. right. exists ename. split; [reflexivity|].
+      split; intros H; rewrite H in E; simpl in E; rewrite String.eqb_refl in E;
+        [discriminate|now rewrite orb_true_r in E].
+  - split; [now left|reflexivity].
+  - split; [discriminate|]. intros [H|[e [H _]]]; discriminate.
+Qed.
+
+Theorem init_no_fms_raises_iff : forall pkgname i,
+  let p := import_outcome pkgname i in
+  (exists e c, init false pkgname i = Raised e c) <->
+  (package_import_fault pkgname i \/ import_fault p \/ ctor_fault p \/ duplicate_names p \/ several_defaults p).
+Proof.
+  intros pkgname i p. unfold init. fold p. rewrite no_fms_raises_iff.
+  unfold p. rewrite package_fault_import_outcome. reflexivity.
+Qed.
+
+(* Where the test on e.name is narrower than "the package does not exist":
+   (e) an ImportError that names the package itself is taken for a missing
+       package although the package may exist ("from . import helper" in its
+       __init__.py raises ImportError(name=<the package>)): tolerated, no FMS *)
+Theorem import_error_naming_the_package_is_tolerated : forall fms pkgname,
+  exists r, init fms pkgname (ImportRaisesImportError (Some pkgname)) = Built r /\ offers_nothing r.
+Proof. intros fms pkgname. apply import_error_policy. now left. Qed.
+
+(* (f) a missing package in the middle of a dotted name is neither the name nor
+       its first component: raised *)
+Theorem missing_intermediate_package_raises :
+  init false "a.b.c" (ImportRaisesImportError (Some "a.b")) = Raised ErrPackage [].
+Proof. reflexivity. Qed.
+
+(* ================================================================== *)
+(* 13. Periods that are not followed by disable()                      *)
+
+(* start() enables the mode that is selected NOW, whatever mode an earlier
+   period left behind in self.active_mode *)
+Theorem start_selects_afresh : forall r st s now,
+  do_start r st s now =
+  (mkL (select r s) (Some now) (robot_exit st),
+   match select r s with Some m => [OnEnable m] | None => [] end).
+Proof. reflexivity. Qed.
+
+(* ... and so does run(): run_period_exact without its hypothesis *)
+Theorem run_period_exact_any : forall r st s t0 wakes,
+  do_run r st s t0 wakes =
+  (mkL None (timer st) (robot_exit st),
+   match select r s with
+   | None => []
+   | Some m => OnEnable m ::
+               map (OnIteration m)
+                   (if robot_exit st then [] else map (fun now => now - t0)%Z (live_prefix wakes)) ++
+               [OnDisable m]
+   end).
+Proof.
+  intros r st s t0 wakes. unfold do_run, on_autonomous_enable. cbn [robot_exit timer].
+  destruct (select r s) as [m|] eqn:Es.
+  - destruct (robot_exit st) eqn:Ex; [reflexivity|].
+    rewrite run_loop_active. destruct (disable_seen wakes); unfold do_disable; simpl.
+    + rewrite app_nil_r. reflexivity.
+    + rewrite app_nil_r. reflexivity.
+  - destruct (robot_exit st) eqn:Ex; [reflexivity|].
+    rewrite run_loop_idle. reflexivity.
+Qed.
+
+Lemma run_ops_periodics_any : forall r a t0 ex nows rest,
+  run_ops r (mkL a (Some t0) ex) (map Periodic nows ++ rest) =
+  let '(ev, fin) := run_ops r (mkL a (Some t0) ex) rest in
+  (match a with Some m => map (fun now => OnIteration m (now - t0)%Z) nows | None => [] end ++ ev, fin).
+Proof.
+  intros r a t0 ex nows rest. induction nows as [|now nows IH]; simpl.
+  - destruct (run_ops r _ rest). destruct a; reflexivity.
+  - simpl in IH. rewrite IH. destruct (run_ops r _ rest). destruct a; reflexivity.
+Qed.
+
+(* what start . periodic^n delivers (no disable()) *)
+Definition open_period (r : selector) (s : sel) (now : Z) (nows : list Z) : list event :=
+  match select r s with
+  | None => []
+  | Some m => OnEnable m :: map (fun n => OnIteration m (n - now)%Z) nows
+  end.
+
+(* two TimedRobot periods, the first one NOT followed by disable(): the second
+   one goes to the mode selected when it begins (to nobody if that is "None"),
+   from ANY state -- the mode of the first period hears nothing more *)
+Theorem period_after_open_period : forall r st s1 now1 nows1 s2 now2 nows2,
+  run_ops r st (Start s1 now1 :: map Periodic nows1 ++ Start s2 now2 :: map Periodic nows2) =
+  (open_period r s1 now1 nows1 ++ open_period r s2 now2 nows2,
+   Some (mkL (select r s2) (Some now2) (robot_exit st))).
+Proof.
+  intros r st s1 now1 nows1 s2 now2 nows2.
+  cbn [run_ops step]. rewrite start_selects_afresh. rewrite run_ops_periodics_any.
+  cbn [run_ops step]. rewrite start_selects_afresh. cbn [robot_exit].
+  rewrite <- (app_nil_r (map Periodic nows2)). rewrite run_ops_periodics_any. cbn [run_ops].
+  unfold open_period. destruct (select r s1), (select r s2); simpl; rewrite ?app_nil_r; reflexivity.
+Qed.
+
+(* tail of a period of mode m whose last elapsed time was >= lo; c: the period
+   is ended by a disable() *)
+Inductive tail_m (r : selector) (m : inst) : Z -> bool -> list (sel * bool) -> list event -> Prop :=
+| tm_stop : forall lo ps tr, conforms_marked r ps tr -> tail_m r m lo false ps tr
+| tm_iter : forall lo t c ps tr, (lo <= t)%Z -> tail_m r m t c ps tr ->
+    tail_m r m lo c ps (OnIteration m t :: tr)
+| tm_close : forall lo ps tr, conforms_marked r ps tr -> tail_m r m lo true ps (OnDisable m :: tr).
+
+Lemma tail_m_shape : forall r m lo c ps tr, tail_m r m lo c ps tr ->
+  exists ts tr', nondecreasing (lo :: ts) /\ conforms_marked r ps tr' /\
+    tr = map (OnIteration m) ts ++ (if c then OnDisable m :: tr' else tr').
+Proof.
+  induction 1 as [lo ps tr Hc|lo t c ps tr Hle Ht [ts [tr' [Hn [Hc Hs]]]]|lo ps tr Hc].
+  - exists [], tr. split; [simpl; tauto|]. auto.
+  - exists (t :: ts), tr'. split; [apply nondecreasing_cons2; auto|]. split; [assumption|]. subst. reflexivity.
+  - exists [], tr. split; [simpl; tauto|]. auto.
+Qed.
+
+Lemma tail_m_to_conforms : forall r m lo c s ps tr,
+  tail_m r m lo c ps tr -> (0 <= lo)%Z -> select r s = Some m ->
+  conforms_marked r ((s, c) :: ps) (OnEnable m :: tr).
+Proof.
+  intros r m lo c s ps tr Ht Hlo Hs. apply tail_m_shape in Ht.
+  destruct Ht as [ts [tr' [Hn [Hc Hshape]]]].
+  assert (Hpos : Forall (fun t => 0 <= t)%Z ts).
+  { apply nondecreasing_lower in Hn. eapply Forall_impl; [|exact Hn]. intros z Hz. simpl in Hz. lia. }
+  apply nondecreasing_tail in Hn. subst tr.
+  destruct c; [now apply cm_closed|now apply cm_left_open].
+Qed.
+
+Definition inv_m (started : bool) (st : lstate) (lastnow : Z) : Prop :=
+  (started = true -> timer st <> None) /\
+  (forall m, active st = Some m -> exists t0, timer st = Some t0 /\ (t0 <= lastnow)%Z).
+
+Definition clock_m (st : lstate) (lastnow : Z) (ops : list op) : Prop :=
+  match active st with
+  | Some _ => nondecreasing (lastnow :: readings ops)
+  | None => nondecreasing (readings ops)
+  end.
+
+Definition goal_m (r : selector) (st : lstate) (lastnow : Z) (ops : list op) (ev : list event) : Prop :=
+  match active st with
+  | None => conforms_marked r (periods ops) ev
+  | Some m => exists t0, timer st = Some t0 /\
+                tail_m r m (lastnow - t0) (closed_before_next ops) (periods ops) ev
+  end.
+
+Lemma clock_m_readings : forall st lastnow ops, clock_m st lastnow ops -> nondecreasing (readings ops).
+Proof.
+  intros st lastnow ops H. unfold clock_m in H. destruct (active st); [|assumption].
+  eapply nondecreasing_tail; eauto.
+Qed.
+
+Lemma lifecycle_marked_gen : forall r ops started st lastnow,
+  timer_ready started ops = true -> inv_m started st lastnow -> clock_m st lastnow ops ->
+  exists ev fin, run_ops r st ops = (ev, Some fin) /\ goal_m r st lastnow ops ev.
+Proof.
+  intros r. induction ops as [|o ops IH]; intros started st lastnow Hrd Hinv Hclk.
+  - exists [], st. split; [reflexivity|]. unfold goal_m. simpl.
+    destruct (active st) as [m|] eqn:Ea; [|constructor].
+    destruct Hinv as [_ Hi]. destruct (Hi m Ea) as [t0 [Ht _]].
+    exists t0. split; [assumption|]. apply tm_stop. constructor.
+  - pose proof (clock_m_readings _ _ _ Hclk) as Hrs.
+    destruct o as [s now|now| |s t0 wakes|].
+    + (* Start: whatever was active is forgotten *)
+      simpl in Hrd. cbn [readings] in Hrs.
+      specialize (IH true (mkL (select r s) (Some now) (robot_exit st)) now Hrd).
+      destruct IH as [ev [fin [Hr Hg]]].
+      { split; [discriminate|]. simpl. intros m _. exists now. split; [reflexivity|lia]. }
+      { unfold clock_m. simpl. destruct (select r s); [exact Hrs|eapply nondecreasing_tail; exact Hrs]. }
+      cbn [run_ops step]. rewrite start_selects_afresh. rewrite Hr.
+      assert (HC : conforms_marked r ((s, closed_before_next ops) :: periods ops)
+                     (match select r s with Some m => [OnEnable m] | None => [] end ++ ev)).
+      { unfold goal_m in Hg. cbn [active timer] in Hg. destruct (select r s) as [m|] eqn:Es.
+        - destruct Hg as [t0 [Ht Hg]]. inversion Ht; subst t0. rewrite Z.sub_diag in Hg.
+          simpl. eapply tail_m_to_conforms; eauto. lia.
+        - simpl. now apply cm_none. }
+      eexists _, fin. split; [reflexivity|].
+      unfold goal_m. cbn [periods closed_before_next]. destruct (active st) as [m0|] eqn:Ea; [|exact HC].
+      destruct Hinv as [_ Hi]. destruct (Hi m0 Ea) as [t0 [Ht _]].
+      exists t0. split; [assumption|]. now apply tm_stop.
+    + (* Periodic *)
+      simpl in Hrd. apply andb_true_iff in Hrd. destruct Hrd as [Hs Hrd]. subst started.
+      destruct Hinv as [Hi1 Hi2]. specialize (Hi1 eq_refl).
+      destruct (timer st) as [t0|] eqn:Et; [|congruence].
+      cbn [readings] in Hrs.
+      assert (Hle : forall m, active st = Some m -> (lastnow <= now)%Z).
+      { intros m Hm. unfold clock_m in Hclk. rewrite Hm in Hclk. simpl in Hclk. tauto. }
+      specialize (IH true st now Hrd). destruct IH as [ev [fin [Hr Hg]]].
+      { split; [congruence|]. intros m Hm. destruct (Hi2 m Hm) as [t1 [Ht1 Hl1]].
+        exists t1. split; [congruence|]. specialize (Hle m Hm). lia. }
+      { unfold clock_m. destruct (active st); [exact Hrs|eapply nondecreasing_tail; exact Hrs]. }
+      cbn [run_ops step]. unfold do_periodic, on_iteration. rewrite Et, Hr.
+      unfold goal_m in *. cbn [periods closed_before_next]. destruct (active st) as [m|] eqn:Ea.
+      * exists (OnIteration m (now - t0)%Z :: ev), fin. split; [reflexivity|].
+        destruct Hg as [t0' [Ht' Hg]]. assert (t0' = t0) by congruence. subst t0'.
+        exists t0. split; [first [reflexivity|exact Et]|]. apply tm_iter; [|exact Hg].
+        assert (lastnow <= now)%Z by (eapply Hle; first [reflexivity|eassumption]). lia.
+      * exists ev, fin. split; [reflexivity|exact Hg].
+    + (* Disable *)
+      simpl in Hrd. cbn [readings] in Hrs.
+      specialize (IH started (mkL None (timer st) (robot_exit st)) lastnow Hrd).
+      destruct IH as [ev [fin [Hr Hg]]].
+      { destruct Hinv as [Hi1 _]. split; [exact Hi1|]. simpl. discriminate. }
+      { exact Hrs. }
+      cbn [run_ops step]. unfold do_disable. rewrite Hr.
+      unfold goal_m in *. cbn [active periods closed_before_next] in *.
+      destruct (active st) as [m|] eqn:Ea.
+      * exists (OnDisable m :: ev), fin. split; [reflexivity|].
+        destruct Hinv as [_ Hi]. destruct (Hi m Ea) as [t0 [Ht _]].
+        exists t0. split; [assumption|]. now apply tm_close.
+      * exists ev, fin. split; [reflexivity|exact Hg].
+    + (* RunPeriod: whatever was active is forgotten; run() ends with disable() *)
+      simpl in Hrd. cbn [readings] in Hrs.
+      assert (Hn' : nondecreasing (readings ops)).
+      { apply nondecreasing_tail in Hrs. now apply nondecreasing_app_r in Hrs. }
+      specialize (IH started (mkL None (timer st) (robot_exit st)) lastnow Hrd).
+      destruct IH as [ev [fin [Hr Hg]]].
+      { destruct Hinv as [Hi1 _]. split; [exact Hi1|]. simpl. discriminate. }
+      { exact Hn'. }
+      cbn [run_ops step]. rewrite run_period_exact_any. rewrite Hr.
+      unfold goal_m in Hg. cbn [active] in Hg.
+      assert (HC : conforms_marked r ((s, true) :: periods ops)
+                (match select r s with
+                 | None => []
+                 | Some m => OnEnable m ::
+                     map (OnIteration m)
+                       (if robot_exit st then [] else map (fun now => now - t0)%Z (live_prefix wakes)) ++
+                     [OnDisable m]
+                 end ++ ev)).
+      { destruct (select r s) as [m|] eqn:Es; [|now apply cm_none].
+        cbn [app]. rewrite <- app_assoc. cbn [app].
+        apply cm_closed; auto.
+        - destruct (robot_exit st); [exact I|].
+          apply nondecreasing_shift.
+          destruct (live_prefix_is_prefix wakes) as [rest Hp].
+          apply nondecreasing_tail in Hrs. rewrite Hp, <- app_assoc in Hrs.
+          now apply nondecreasing_app_l in Hrs.
+        - destruct (robot_exit st); [constructor|].
+          destruct (live_prefix_is_prefix wakes) as [rest Hp].
+          rewrite Hp, <- app_assoc in Hrs. change (t0 :: live_prefix wakes ++ rest ++ readings ops)
+            with ((t0 :: live_prefix wakes) ++ rest ++ readings ops) in Hrs.
+          apply nondecreasing_app_l in Hrs. apply nondecreasing_lower in Hrs.
+          apply Forall_forall. intros t Ht. apply in_map_iff in Ht. destruct Ht as [n [Hn1 Hn2]].
+          rewrite Forall_forall in Hrs. specialize (Hrs n Hn2). simpl in Hrs. lia. }
+      eexists _, fin. split; [reflexivity|].
+      unfold goal_m. cbn [periods closed_before_next]. destruct (active st) as [m0|] eqn:Ea; [|exact HC].
+      destruct Hinv as [_ Hi]. destruct (Hi m0 Ea) as [t1 [Ht _]].
+      exists t1. split; [assumption|]. now apply tm_stop.
+    + (* EndCompetition *)
+      simpl in Hrd. cbn [readings] in Hrs.
+      specialize (IH started (mkL (active st) (timer st) true) lastnow Hrd).
+      destruct IH as [ev [fin [Hr Hg]]].
+      { exact Hinv. }
+      { exact Hclk. }
+      cbn [run_ops step]. rewrite Hr. exists ev, fin. split; [reflexivity|exact Hg].
+Qed.
+
+(* every call sequence in which periodic() does not come before the first
+   start(): periods may follow one another without disable() in between, start()
+   and run() may be mixed at will *)
+Theorem lifecycle_marked : forall r ops,
+  timer_ready false ops = true -> clock_monotone ops ->
+  conforms_marked r (periods ops) (trace r ops) /\ snd (run_ops r init_lstate ops) <> None.
+Proof.
+  intros r ops Hrd Hclk.
+  destruct (lifecycle_marked_gen r ops false init_lstate 0%Z Hrd) as [ev [fin [Hr Hg]]].
+  - split; [discriminate|]. simpl. discriminate.
+  - exact Hclk.
+  - unfold trace. rewrite Hr. simpl. split; [exact Hg|discriminate].
+Qed.
+
+Lemma periods_selections : forall ops, map fst (periods ops) = selections ops.
+Proof.
+  induction ops as [|[s now|now| |s t0 wakes|] ops IH]; simpl; congruence.
+Qed.
+
+Lemma conforms_marked_modes : forall r ps tr, conforms_marked r ps tr ->
+  forall e, In e tr -> exists s, In s (map fst ps) /\ select r s = Some (mode_of e).
+Proof.
+  induction 1 as [|s c ps tr Hs Hc IH|s ps m ts tr Hs Hn Hp Hc IH|s ps m ts tr Hs Hn Hp Hc IH]; intros e He.
+  - contradiction.
+  - destruct (IH e He) as [s' [H1 H2]]. exists s'. split; [now right|assumption].
+  - destruct He as [He|He]; [subst; exists s; split; [now left|assumption]|].
+    apply in_app_iff in He. destruct He as [He|[He|He]].
+    + apply in_map_iff in He. destruct He as [t [Ht _]]. subst. exists s. split; [now left|assumption].
+    + subst. exists s. split; [now left|assumption].
+    + destruct (IH e He) as [s' [H1 H2]]. exists s'. split; [now right|assumption].
+  - destruct He as [He|He]; [subst; exists s; split; [now left|assumption]|].
+    apply in_app_iff in He. destruct He as [He|He].
+    + apply in_map_iff in He. destruct He as [t [Ht _]]. subst. exists s. split; [now left|assumption].
+    + destruct (IH e He) as [s' [H1 H2]]. exists s'. split; [now right|assumption].
+Qed.
+
+(* no other mode receives any callback -- also when periods are left open *)
+Theorem only_selected_modes_marked : forall r ops,
+  timer_ready false ops = true -> clock_monotone ops ->
+  forall e, In e (trace r ops) ->
+    exists s, In s (selections ops) /\ select r s = Some (mode_of e).
+Proof.
+  intros r ops Hw Hc e He. destruct (lifecycle_marked r ops Hw Hc) as [H _].
+  rewrite <- periods_selections. eapply conforms_marked_modes; eauto.
+Qed.
